@@ -26,6 +26,20 @@ ASSUMPTIONS = [
     'preceded by CR is delivered as CR LF; payload shapes never end in CR (a CR at the end of one written string followed by the '
     'LF of the next is not generated); CRLF mode is combined with the default output mode only (CSV/TSV quoting of newlines is '
     'encoding/csv\'s); what getline / the main loop return for a line that ends in CR is not judged',
+    'a file name in a directory that does not exist (nd/g1; written with > and >> by print and printf, read by getline and as an '
+    'operand; spelled absolute, computed, "./"-relative, and -- custom OpenFile only -- relative to the root of a name-mapping OpenFile '
+    'wrapper that resolves such names in the work directory, as os.Root.OpenFile would): refused under the deny flag, else exactly one '
+    'recorded OpenFile call; generated only when a custom OpenFile is configured or the deny flag of that direction is set (what the default open function does about a missing directory is not the statement\'s business); the error outcome of the failed open is not judged; the model says that a run creates no file-system entry '
+    'except the files it opens for writing through the open function (Prediction.created): the harness lists the tree under the work '
+    'directory before and after every run and looks for the per-case unique first component of the mapped names in the process\'s '
+    'working directory (other entries of the working directory, which is shared by concurrent cases, are not looked at)',
+    'payload shape "block": ONE string of N copies of the payload letter written by one print / printf; the model treats it as one '
+    'symbol (the statement does not depend on the length of a written string); the binding replays each such history with N = 4096, '
+    '65535, 65536, 65537 and 131073 (65536 and 65537 when a process is started) -- around the sizes of the interpreter\'s 64 KiB stream '
+    'buffers -- and expands the symbol in the predicted contents',
+    'the implied print of a rule with a pattern and no action (form "implied") is rendered as a main loop: one input record per '
+    'action (its payload letter), action k runs in a rule NR == k; only in histories that do not use the standard input otherwise '
+    '(the failure family)',
     'not generated because the statement leaves the outcome open: output to "-", /dev/stdout, /dev/stderr under NoFileWrites; a file '
     'operand that is open for writing; using one name in both directions at once is generated but its error '
     'outcome is not judged',
@@ -93,7 +107,7 @@ def corrupt(case, rnd):
     return c
 
 
-NEW_NAMES = ('/dev/null', 'd1', 'empty', 'blank', 'spcat', 'v=1')
+NEW_NAMES = ('/dev/null', 'd1', 'empty', 'blank', 'spcat', 'v=1', 'nd/g1')
 PATH_CLASSES = ('rel', 'dotdot', 'devdd')
 
 
@@ -126,6 +140,11 @@ def corrupt_new_dim(case, rnd):
     c = copy.deepcopy(case)
     p = c['pred']
     cfg = c['cfg']
+    if any(a.get('name') == 'nd/g1' for a in c['acts']) and 'created' in p and rnd.randrange(3) == 0:
+        # a name in a directory that does not exist: the model says that nothing comes into being; a prediction that the
+        # file (hence its directory) is created must be rejected
+        p['created'] = p['created'] + ['nd', 'nd/g1']
+        return c
     if cfg['custom'] and p['opens'] and rnd.randrange(3) > 0:
         # the predicted call of the open-file function: dropped, or with the wrong mode
         if rnd.randrange(2) == 0:
@@ -145,6 +164,14 @@ def corrupt_new_dim(case, rnd):
         return c
     p['starts'] = p['starts'] + ['spcat']
     return c
+
+
+def has_block(case):
+    return any(a.get('shape') == 'block' for a in case['acts'])
+
+
+def has_implied(case):
+    return any(a.get('form') == 'implied' for a in case['acts'])
 
 
 def has_newline_dim(case):
@@ -171,6 +198,14 @@ def corrupt_newline(case, rnd):
     if not dests:
         return None
     d = dests[rnd.randrange(len(dests))]
+    blocks = [i for i, v in enumerate(d) if v >= 1000]
+    if blocks and len(d) > 1:
+        # a block (one string as large as a stream buffer): moved in front of / behind its neighbour (delivered out of order)
+        i = blocks[0]
+        j = i - 1 if i > 0 else i + 1
+        if d[i] != d[j]:
+            d[i], d[j] = d[j], d[i]
+            return c
     if 13 in d:
         d.remove(13)
     elif 10 in d:
